@@ -18,12 +18,12 @@ theorem rsMessage_length (mac : Bytes) (h : mac.length = 6) : (rsMessage mac).le
 
 /-- the message part: what the sender passes to `icmp6SendPacket` -/
 theorem rs_built (hm : Bytes) (h1 : hm.length = 6) :
-    PV.Gen.LoopsMarshal.genRouterSolicitation_marshal (fun _ => Outcome.panic) (fun _ => Outcome.panic) (fun _ => Outcome.panic)
+    PV.Gen.LoopsMarshal.genRouterSolicitation_marshal (fun _ => Outcome.panic)
       ({ PV.Gen.LoopsMarshal.G_RouterSolicitation.zero with
           Options := [(PV.Gen.LoopsMarshal.I_Option.LinkLayerAddress
             { PV.Gen.LoopsMarshal.G_LinkLayerAddress.zero with Direction := 1, MAC := hm })] } :
         PV.Gen.LoopsMarshal.G_RouterSolicitation) = .ok (rsMessage hm) :=
-  PV.Props.C03MarshalTie.rs_with_source_lla _ _ _ [] hm h1
+  PV.Props.C03MarshalTie.rs_with_source_lla _ [] hm h1
 
 /-- `IP6AllRoutersAddr` as the sender reads it (the initialisers of `Eth6AllRoutersMulticast` / `IP6AllRoutersMulticast`) -/
 def allRoutersMAC : Bytes := [0x33, 0x33, 0, 0, 0, 2]
@@ -40,12 +40,12 @@ theorem icmp6SendRS_tie (g : Mem) (hm lla : Bytes) (h1 : hm.length = 6) (h3 : ll
 theorem icmp6SendRS_bad_mac (g : Mem) (hm lla : Bytes) (h1 : hm.length ≠ 6) :
     Gen.Send.ICMP6SendRouterSolicitation g hm lla = .err .other := by
   unfold Gen.Send.ICMP6SendRouterSolicitation
-  have : PV.Gen.LoopsMarshal.genRouterSolicitation_marshal (fun _ => Outcome.panic) (fun _ => Outcome.panic) (fun _ => Outcome.panic)
+  have : PV.Gen.LoopsMarshal.genRouterSolicitation_marshal (fun _ => Outcome.panic)
       ({ PV.Gen.LoopsMarshal.G_RouterSolicitation.zero with
           Options := [(PV.Gen.LoopsMarshal.I_Option.LinkLayerAddress
             { PV.Gen.LoopsMarshal.G_LinkLayerAddress.zero with Direction := 1, MAC := hm })] } :
         PV.Gen.LoopsMarshal.G_RouterSolicitation) = .err .other :=
-    PV.Props.C03MarshalTie.rs_bad_mac _ _ _ [] hm h1
+    PV.Props.C03MarshalTie.rs_bad_mac _ [] hm h1
   rw [this]
   rfl
 
